@@ -70,35 +70,55 @@ func vfC17Universe(maxField uint64) []SequenceID {
 	return all
 }
 
-// vfC17StrictlyAfterAll: t can be appended to the chain (every member is Before t and t is Before none).
+// vfC17RefKey / vfC17RefLess: the position a well-formed token denotes in a changes feed, written from
+// the documented token semantics and NOT from SequenceID.Before (the checkpointer sorts with Before, so a
+// feed order derived from Before would be blind to a wrong comparator): a plain token S sits at S; a
+// back-fill row T:S sits at its trigger T, before the plain row T and ordered by S among rows of the same
+// trigger; a token carrying a low sequence L sits at L, after the plain and back-fill rows of L, ordered
+// by its remainder. The C20 check shows exhaustively that Before agrees with this order on the unchanged tree.
+func vfC17RefKey(s SequenceID) []uint64 {
+	rest := func(trig, seq uint64) []uint64 {
+		if trig != 0 {
+			return []uint64{trig, 0, seq}
+		}
+		return []uint64{seq, 1, 0}
+	}
+	if s.LowSeq != 0 {
+		return append([]uint64{s.LowSeq, 2}, rest(s.TriggeredBy, s.Seq)...)
+	}
+	return rest(s.TriggeredBy, s.Seq)
+}
+
+func vfC17RefLess(a, b SequenceID) bool {
+	ka, kb := vfC17RefKey(a), vfC17RefKey(b)
+	for i := 0; i < len(ka) && i < len(kb); i++ {
+		if ka[i] != kb[i] {
+			return ka[i] < kb[i]
+		}
+	}
+	return len(ka) < len(kb)
+}
+
+// vfC17StrictlyAfterAll: t can be appended to the chain (it follows every member in feed order).
 func vfC17StrictlyAfterAll(chain []SequenceID, t SequenceID) bool {
 	for _, c := range chain {
-		if !c.Before(t) || t.Before(c) || c == t {
+		if !vfC17RefLess(c, t) || c == t {
 			return false
 		}
 	}
 	return true
 }
 
-// vfC17InsertChain inserts t into a feed (strict chain under Before) if it is comparable with every
-// member at a consistent position; otherwise the feed is returned unchanged.
+// vfC17InsertChain inserts t into a feed at its feed-order position; a token already present leaves the
+// feed unchanged.
 func vfC17InsertChain(chain []SequenceID, t SequenceID) ([]SequenceID, bool) {
 	pos := 0
 	for _, c := range chain {
 		if c == t {
 			return chain, false
 		}
-		if c.Before(t) {
+		if vfC17RefLess(c, t) {
 			pos++
-		}
-	}
-	for i, c := range chain {
-		if i < pos {
-			if !c.Before(t) || t.Before(c) {
-				return chain, false
-			}
-		} else if !t.Before(c) || c.Before(t) {
-			return chain, false
 		}
 	}
 	out := make([]SequenceID, 0, len(chain)+1)
@@ -299,7 +319,7 @@ func (s *vfC17Sim) tick(inOrder bool) (cp *SequenceID, bad string) {
 	// clause 1 (no run-ahead): every token the replicator was told to expect at or before the
 	// checkpoint is complete. Restarting from v re-reads only what follows v.
 	for i, e := range s.feed {
-		if out&(1<<uint(i)) != 0 && (e == v || e.Before(v)) {
+		if out&(1<<uint(i)) != 0 && (e == v || vfC17RefLess(e, v)) {
 			return cp, fmt.Sprintf("checkpoint %s runs ahead: expected token %s (feed position %d) is at or before it and was neither processed nor already known", v.String(), e.String(), i)
 		}
 	}
@@ -315,13 +335,13 @@ func (s *vfC17Sim) tick(inOrder bool) (cp *SequenceID, bad string) {
 			return cp, fmt.Sprintf("checkpoint %s (feed position %d): a restart would skip feed positions %b (bit i = position i) that were never completed", v.String(), idx, need&^s.done())
 		}
 		// clause 3: persisted checkpoints never move backwards
-		if s.hasLast && v.Before(s.last) {
+		if s.hasLast && vfC17RefLess(v, s.last) {
 			return cp, fmt.Sprintf("checkpoint moved backwards: %s after %s", v.String(), s.last.String())
 		}
 		if idx < s.maxCPIdx {
 			return cp, fmt.Sprintf("checkpoint moved backwards in the feed: position %d after position %d", idx, s.maxCPIdx)
 		}
-	} else if s.hasLast && v.Before(s.last) {
+	} else if s.hasLast && vfC17RefLess(v, s.last) {
 		s.backwards++
 	}
 	s.last, s.hasLast = v, true
